@@ -22,7 +22,7 @@ def extra(r, exe, thorough):
         r.notes.append("valgrind not found: memcheck slice skipped")
         return
     log = os.path.join(core.BUILD, "runs", "memcheck-c02-%d.log" % os.getpid())
-    cases, sums, notes = core.run_child_cases(exe, "hist", r.seed + 7, "quick", 0, 1, extra={"mon": "c02", "n": 150, "selfcheck": 1, "nosynth": 1}, timeout=1800,
+    cases, sums, notes = core.run_child_cases(exe, "hist", r.seed + 7, "quick", 0, 1, extra={"mon": "c02", "n": 150, "selfcheck": 1, "nosynth": 1, "valgrind": 1}, timeout=1800,
                                              prefix=[vg, "--tool=memcheck", "--smc-check=all", "--error-exitcode=99", "--quiet", "--log-file=" + log])
     errs = 0
     txt = ""
